@@ -6,6 +6,7 @@ import DDV.Props.C05
 import DDV.Gen.Emit
 import DDV.Gen.Lemmas.Refs
 import DDV.Gen.Lemmas.LowerTree
+import DDV.Gen.Lemmas.LowerRefs
 import DDV.Gen.Lemmas.Claimed
 
 namespace DDV.Props.C04
@@ -264,5 +265,139 @@ theorem definition_invalid_index (n : Names) (cfg : GlobalConfig) (pre : List (O
     | some r => rw [hrp] at hk hi; simp only at hk hi
                 have hne : ¬ i < r.count := by omega
                 simp [hne] at hk
+
+/-! ### The same at definition level with refs (register, command and block refs at any depth) -/
+
+/-- **A ref uses its own overridden address, repeat, access and reset value while sharing its
+    target's layout**: what a register ref stands for is its target with exactly those members
+    replaced where the override has them (name, size, orders and fields are the target's). -/
+theorem register_ref_stands_for (n : Names) (all : List Object) (rf : RefObject) (ov : RegisterOverride) (r : Register)
+    (hov : rf.override = .register ov) (ht : searchObject ov.name all = some (.register r)) :
+    resolve n all (.ref rf) = some (.register { r with
+      cfg := rf.cfg, description := rf.description,
+      allowAddressOverlap := r.allowAddressOverlap || ov.allowAddressOverlap,
+      access := ov.access.getD r.access, address := ov.address.getD r.address,
+      reset := (match ov.reset with | some x => some x | none => r.reset),
+      repeat_ := (match ov.repeat_ with | some x => some x | none => r.repeat_) }) := by
+  simp [resolve, resolveWith, hov, ObjectOverride.name, ht, substRef]
+  cases ov.reset <;> cases ov.repeat_ <;> exact ⟨rfl, rfl⟩
+
+theorem command_ref_stands_for (n : Names) (all : List Object) (rf : RefObject) (ov : CommandOverride) (c : Command)
+    (hov : rf.override = .command ov) (ht : searchObject ov.name all = some (.command c)) :
+    resolve n all (.ref rf) = some (.command { c with
+      cfg := rf.cfg, description := rf.description,
+      allowAddressOverlap := c.allowAddressOverlap || ov.allowAddressOverlap,
+      address := ov.address.getD c.address,
+      repeat_ := (match ov.repeat_ with | some x => some x | none => c.repeat_) }) := by
+  simp [resolve, resolveWith, hov, ObjectOverride.name, ht, substRef]
+  cases ov.repeat_ <;> rfl
+
+/-- A block ref stands for a block with the target's children, at the override's offset and repeat. -/
+theorem block_ref_stands_for (n : Names) (all : List Object) (rf : RefObject) (ov : BlockOverride) (h : BlockHead)
+    (cs : List Object) (hov : rf.override = .block ov) (ht : searchObject ov.name all = some (.block h cs)) :
+    resolve n all (.ref rf) = some (.block { h with
+      cfg := rf.cfg, description := rf.description,
+      addressOffset := ov.addressOffset.getD h.addressOffset,
+      repeat_ := (match ov.repeat_ with | some x => some x | none => h.repeat_) } cs) := by
+  simp [resolve, resolveWith, hov, ObjectOverride.name, ht, substRef]
+  cases ov.repeat_ <;> rfl
+
+/-- **The address of an instance, refs included.** For any path through the definition — real
+    blocks and block refs from the outside in, each with a valid index, down to a register /
+    command / buffer or a ref to one — the chain of generated accessor calls computes exactly
+    `Σ (offset + index × stride)` in the integers, each offset, address and stride being the ref's
+    own where its override has one and its target's otherwise. -/
+theorem definition_instance_address_refs (n : Names) (cfg : GlobalConfig) (all os : List Object)
+    (tch : List (Object × Nat)) (ht : TreeChainR n all os tch) :
+    evalChain (tch.map (liftStepR n cfg all)) 0 = some (treeAddressR n all tch 0) := by
+  have hv := treeChainR_valid n all ht
+  have hsome : (evalChain (tch.map (liftStepR n cfg all)) 0).isSome := by
+    rw [chain_defined_iff]
+    intro mi hmi
+    obtain ⟨x, hx, rfl⟩ := List.mem_map.1 hmi
+    obtain ⟨t, h1, h2⟩ := hv x hx
+    simp only [liftStepR]
+    rw [← methodOfR_count n cfg all x.1 t h1] at h2
+    unfold Method.addrAt
+    unfold Method.count at h2
+    cases hr : (methodOfR n cfg all "new" x.1).repeat_ with
+    | none => rw [hr] at h2; simp only at h2; have : x.2 = 0 := by omega
+              simp [this]
+    | some r => rw [hr] at h2; simp only at h2; simp [h2]
+  cases he : evalChain (tch.map (liftStepR n cfg all)) 0 with
+  | none => rw [he] at hsome; cases hsome
+  | some a =>
+    have := address_formula _ 0 a he
+    rw [this, specChain_liftR n cfg all tch 0 (treeChainR_resolves n all ht)]
+
+/-- … and an index at or above the count of what the object stands for yields no address. -/
+theorem definition_invalid_index_refs (n : Names) (cfg : GlobalConfig) (all : List Object)
+    (pre : List (Object × Nat)) (o t : Object) (i : Nat) (post : List (Object × Nat))
+    (hr : resolve n all o = some t) (hi : objCount t ≤ i) :
+    evalChain ((pre ++ (o, i) :: post).map (liftStepR n cfg all)) 0 = none := by
+  cases he : evalChain ((pre ++ (o, i) :: post).map (liftStepR n cfg all)) 0 with
+  | none => rfl
+  | some a =>
+    have hsome : (evalChain ((pre ++ (o, i) :: post).map (liftStepR n cfg all)) 0).isSome := by rw [he]; rfl
+    rw [chain_defined_iff] at hsome
+    have hk := hsome (liftStepR n cfg all (o, i)) (List.mem_map.2 ⟨(o, i), by simp, rfl⟩)
+    simp only [liftStepR] at hk
+    rw [← methodOfR_count n cfg all o t hr] at hi
+    unfold Method.addrAt at hk
+    unfold Method.count at hi
+    cases hrp : (methodOfR n cfg all "new" o).repeat_ with
+    | none => rw [hrp] at hk hi; simp only at hk hi; have hne : i ≠ 0 := by omega
+              simp [hne] at hk
+    | some r => rw [hrp] at hk hi; simp only at hk hi
+                have hne : ¬ i < r.count := by omega
+                simp [hne] at hk
+
+/-- **C04 at definition level, whole devices.** If the lowering of a device succeeds and its block
+    type names are distinct (from each other and from the device name), then the accessor chains
+    from the root block are exactly the instances of the definition — refs at any depth standing
+    for their targets with the override applied — and each reaches the mathematically defined
+    address. -/
+theorem every_instance_reaches_its_address (n : Names) (name : String) (d : Device) (l : Lir)
+    (h : lower n name d = .ok l) (hn : (l.blocks.map (·.name)).Nodup) :
+    ∃ root rest, l.blocks = root :: rest ∧ root.root = true ∧ root.name = name ∧
+      (∀ tch, TreeChainR n d.objects d.objects tch →
+        LeafChain l.blocks root.methods (tch.map (liftStepR n d.config d.objects)) ∧
+        evalChain (tch.map (liftStepR n d.config d.objects)) 0 = some (treeAddressR n d.objects tch 0)) ∧
+      (∀ ch, LeafChain l.blocks root.methods ch →
+        ∃ tch, TreeChainR n d.objects d.objects tch ∧ ch = tch.map (liftStepR n d.config d.objects)) := by
+  obtain ⟨fuel, hc⟩ := lower_blocks n name d l h
+  obtain ⟨root, rest, e1, e2, e3, e4, f1, f2, f3⟩ :=
+    instances_of_the_definition_refs n d.config fuel name d.objects l.blocks hc hn
+  exact ⟨root, rest, e1, e2, e3,
+    fun tch ht => ⟨f1 tch ht, definition_instance_address_refs n d.config d.objects d.objects tch ht⟩, f2⟩
+
+/-! Non-vacuity: `block A { OFFSET 10; register R @3 ×2 stride 4 }, ref B = block A { OFFSET 100, ×3 stride 20 }` —
+    `b(2).r(1)` is an instance and sits at 100 + 2·20 + 3 + 1·4 = 147. -/
+section Example
+def exNames : Names := { devicePascal := "Dev", pascal := fun s => s, method := fun s => s, snake := fun s => s, collision := fun s => s }
+def exReg : Register :=
+  { name := "R", access := Access.rw, byteOrder := none, bitOrder := DDV.Bits.BitOrder.lsb0,
+    allowBitOverlap := false, allowAddressOverlap := false, address := 3, sizeBits := 8, reset := none,
+    repeat_ := some ⟨2, 4⟩, fields := [] }
+def exBlk : Object := .block { name := "A", addressOffset := 10, repeat_ := none } [.register exReg]
+def exRef : Object := .ref { name := "B", override := .block { name := "A", addressOffset := some 100, repeat_ := some ⟨3, 20⟩ } }
+def exObjs : List Object := [exBlk, exRef]
+
+theorem exRef_resolves : resolve exNames exObjs exRef =
+    some (.block { name := "A", addressOffset := 100, repeat_ := some ⟨3, 20⟩ } [.register exReg]) := by
+  simp [resolve, resolveWith, exRef, ObjectOverride.name, searchObject, allObjects, flattenList, flattenObj, exObjs,
+    exBlk, Object.name, substRef]
+
+theorem exPath : TreeChainR exNames exObjs exObjs [(exRef, 2), (.register exReg, 1)] :=
+  TreeChainR.step (by simp [exObjs]) exRef_resolves (by decide)
+    (TreeChainR.leaf (by simp) rfl rfl (by decide))
+
+example (cfg : GlobalConfig) :
+    evalChain ([(exRef, 2), (.register exReg, 1)].map (liftStepR exNames cfg exObjs)) 0 = some 147 := by
+  rw [definition_instance_address_refs exNames cfg exObjs exObjs _ exPath]
+  simp only [treeAddressR, exRef_resolves, resolve_nonref_obj exNames exObjs (.register exReg) rfl, Option.getD_some,
+    Object.address, objStride, Object.repeat_, exReg]
+  decide
+end Example
 
 end DDV.Props.C04
